@@ -41,25 +41,29 @@ JudgeA(e) ==
        \cup Why(e.got.n # e.nseg, "exports_count")
        \cup Why(e.got.root # e.want_root, "exports_root")
 
-\* Xi: the report computed from a scripted refinement.  items / classes / outs as generated; offsets = export
-\* segment offset handed to each refinement; got = [results, h, l, n, root, core, authgas, authout]
+\* Xi: the report computed from a scripted refinement.  items as generated; outs[k] = [t, data, datarep, nret, u]
+\* (output blob = data followed by datarep bytes of value 7); got_offsets = export segment offset handed to each
+\* refinement; got = [results, h, l, n, root, core, authgas, authout].  Which items fail is computed here (FailedItems).
 JudgeXi(e) ==
   LET n == Len(e.items)
       W(k) == [s |-> e.items[k].s, c |-> e.items[k].c, a |-> e.items[k].a, e |-> e.items[k].e, payload |-> e.items[k].payload,
                imports |-> Rep(0, e.items[k].ni), ext |-> e.items[k].ext]
+      ws == [k \in 1..n |-> W(k)]
+      script == [k \in 1..n |-> [t |-> e.outs[k].t, dlen |-> Len(e.outs[k].data) + e.outs[k].datarep, nret |-> e.outs[k].nret]]
+      failed == FailedItems(ws, script, Len(e.authout))
       BadItem(k) == LET d == Digest(W(k), e.outs[k], e.outs[k].u)
                         g == e.got.results[k]
                     IN \/ g.s # d.s \/ g.c # d.c \/ g.y # e.want_ys[k] \/ g.a # d.a \/ g.u # d.u
                        \/ g.i # d.i \/ g.x # d.x \/ g.z # LE(d.z, 4) \/ g.e # d.e
       BadResult(k) == LET g == e.got.results[k] IN
-                      IF e.classes[k] = "ok" THEN g.rt # "ok" \/ g.rdata # e.outs[k].data
+                      IF ~failed[k] THEN g.rt # "ok" \/ g.rdata # e.outs[k].data \o Rep(7, e.outs[k].datarep)
                       ELSE g.rt = "ok"
   IN IF e.panic = 1 THEN {"panic:WorkReportCompute"}
      ELSE IF e.err = 1 THEN {"WorkReportCompute_returned_error"}
      ELSE IF Len(e.got.results) # n THEN {"digest_count"}
      ELSE Why(\E k \in 1..n : BadItem(k), "report_digest_fields")
           \cup Why(\E k \in 1..n : BadResult(k), "report_digest_result")
-          \cup Why(e.got_offsets # ExportOffsets([k \in 1..n |-> W(k)]), "export_segment_offset")
+          \cup Why(e.got_offsets # ExportOffsets(ws), "export_segment_offset")
           \cup Why(e.got.h # e.h, "package_hash")
           \cup Why(e.got.l # LE(e.blen, 4), "bundle_length")
           \cup Why(e.got.n # e.nsegs, "exports_count")
